@@ -62,7 +62,9 @@ func LexWGSL(src string) []SimpleToken {
 	var out []SimpleToken
 	i := 0
 	n := len(src)
-	isIdent := func(c byte) bool { return c == '_' || c >= '0' && c <= '9' || c >= 'a' && c <= 'z' || c >= 'A' && c <= 'Z' || c >= 0x80 }
+	isIdent := func(c byte) bool {
+		return c == '_' || c >= '0' && c <= '9' || c >= 'a' && c <= 'z' || c >= 'A' && c <= 'Z' || c >= 0x80
+	}
 	ops := []string{"<<=", ">>=", "&&", "||", "==", "!=", "<=", ">=", "<<", ">>", "->", "+=", "-=", "*=", "/=", "%=", "&=", "|=", "^=", "++", "--"}
 	for i < n {
 		c := src[i]
